@@ -26,6 +26,7 @@ RULE = ("correspondence: ecdsa_truncate over 17 curve orders + small/odd-sized/n
         "bit length 2..72 and the large orders x every digest length 1..baselen+3; (r, s) and dG against the independent "
         "affine arithmetic, exhaustive over all d, k in [1,n-1] and e in [0,n+1] on toy curves, structured on named curves; "
         "RSZeroError exactly when r or s is 0; BadDigestError exactly when not allow_truncate and len > baselen.")
+RULE = RULE + E.COUNT_RULE
 ASSUMPTIONS = ["digests are non-empty (an empty digest raises ValueError on both sides; corresponded, not claimed)",
                "with allow_truncate=False and baselen >= len(digest) but 8*len > bitlen(n) (non-byte-aligned orders) the "
                "property fixes no value; the code uses the whole digest as the integer (corresponded with the model only)",
@@ -116,6 +117,7 @@ def h_values(rng, n, nrand):
 
 
 def correspond(ctx):
+    E.note_budget(ctx)
     from ecdsa import numbertheory, util
     rng = ctx.rng
     q = ctx.quick
@@ -352,7 +354,7 @@ def check(ctx, i, tag):
     ctx.hist("search.class", tag)
     bad = run_case(i)
     if bad:
-        rec = {"input": i, "class": tag}
+        rec = {"input": i, "class": tag, "replayable": True}
         rec.update(bad)
         ctx.violation(rec)
     return bad
@@ -496,4 +498,4 @@ def search_named(ctx):
 
 
 def replay(rec):
-    return run_case(rec["input"]) is not None
+    return E.replay_record(rec, run_case, lambda c: c.get("kind") in CASES)
